@@ -188,24 +188,43 @@ theorem foldl_excl (e : Nat) (os : List XOrder) (b : Buckets) :
     · simp [List.filter, h, addOrder_excl_irrelevant e b o h, ih]
 
 /-- C16.5 (partial: the new order is a different order from the excluded one) an excluded order is
-    handled exactly as if it had been removed, a new order exactly as if it had been added. -/
+    handled exactly as if it had been removed from the book, and the prospective order exactly as if
+    it had been added as a fresh resting order, whatever status it carries -/
 theorem exclusion_new_order_partial (orders : List XOrder) (e : Nat) (n : XOrder) (h : n.id ≠ e) :
-    buckets orders (some e) (some n) = buckets (orders.filter (fun o => o.id ≠ e) ++ [n]) none none := by
-  unfold buckets
-  simp only [Option.toList, List.append_nil]
-  rw [foldl_excl, List.filter_append]
-  simp [List.filter, h]
+    buckets orders (some e) (some n) = buckets (orders.filter (fun o => o.id ≠ e)) none (some n) := by
+  unfold buckets addNew
+  simp only
+  have h1 : ¬ (some e = some n.id) := fun hh => h (Option.some.inj hh).symm
+  rw [if_neg h1, if_neg (by simp), foldl_excl, List.filter_filter, List.filter_filter]
+  congr 3
+  funext o
+  exact Bool.and_comm _ _
 
-/-- the full statement fails on the code as it stands: when the same order is passed as exclusion
-    and as new order (what StrategyExposure does for REPLACE) it is dropped, not counted once. -/
+theorem new_order_counted_in_full (b : Buckets) (n : XOrder) :
+    addNew none b n = addOrder none b { n with status := none, complete := false } := by
+  unfold addNew; simp
+
+/-- the prospective order never appears twice: an instance of it already in the book is left out -/
+theorem new_order_not_double_counted (orders : List XOrder) (excl : Option Nat) (n : XOrder) :
+    buckets orders excl (some n) = buckets (orders.filter fun o => o.id ≠ n.id) excl (some n) := by
+  unfold buckets
+  simp only [List.filter_filter, Bool.and_self]
+
 def wOrder : XOrder :=
   { id := 7, sel := 0, side := .lay, kind := .limit, lineRange := false, price := some 3,
     status := some .executable, complete := false, sizeMatched := 0, avgPrice := 0,
     sizeRemaining := 10, liability := 0 }
 
+/-- the full statement fails on the code as it stands (known finding F1b): when the same order is
+    passed as exclusion and as new order (what StrategyExposure does for REPLACE) it is dropped, not
+    counted once -/
 theorem exclusion_is_new_order_witness :
     (getExposures [wOrder] 0 (some 7) (some wOrder)).worstWin = 0 ∧
     (getExposures [wOrder] 0 none none).worstWin = -20 := by decide +kernel
+
+/-- a refused order that is placed again (status VIOLATION, `complete`) is counted like a fresh one (fix of F18) -/
+theorem refused_order_retried_is_counted :
+    (getExposures [] 0 none (some { wOrder with status := some .violation, complete := true })).worstWin = -20 := by decide +kernel
 
 /-- non-vacuity of the worst-case theorem's hypotheses -/
 example : OpenOk (buckets [wOrder] none none).ul := by
